@@ -11,7 +11,8 @@ RUNS = {"quick": 3000, "thorough": 150000}
 
 FNS = ["plain", "tup_tuple", "tup_nested", "tup_star", "chain", "aug", "ann", "attr", "walrus",
        "forloop", "fortuple", "forstar", "nestloop", "whileloop", "tryexc", "withcm", "withret", "retnone",
-       "kwargs", "callsother", "K.meth", "deco", "clo", "auglist"]
+       "kwargs", "callsother", "K.meth", "deco", "clo", "auglist", "withtwo", "withthree", "lamdef", "annattr",
+       "slicestore"]
 
 
 def gen_how(rng, ctx):
